@@ -584,6 +584,7 @@ func TestWitnessBinding(t *testing.T) {
 	g := genCase(fields)
 	rec.Check(t, "shape", ev.N(20000, 300000), func(rt *rapid.T) {
 		c := g.Draw(rt, "case")
+		rec.Begin("shape", c)
 		rec.Report(rt, "shape", c, run(c))
 	})
 }
